@@ -402,7 +402,7 @@ def gen_scenario(rng, profile=None, size=None, exclude=frozenset()):
             for _ in range(rng.randint(3, 8)):
                 r = rng.random()
                 if with_res and r < 0.12:
-                    cmds.append(rng.choice(["acq 0", "acq 1", "rel 0", "rel 1", "pre 0"]))
+                    cmds.append(rng.choice(["acq 0", "acq 1", "rel 0", "rel 1"]))
                 elif r < 0.3:
                     cmds.append("%s 0 %d" % (rng.choice(["pacq", "ppre", "ppre"]), rng.randint(1, cap)))
                 elif r < 0.5:
